@@ -41,9 +41,28 @@ def limbs(rng):
         v |= limb << sh; sh += w
     return v & (2**256 - 1)
 
+def near_limbwise(rng, K):
+    """a value that agrees with the constant K in its top limbs (32- or 64-bit), is just above / below / far from K in the next limb,
+    and has misleading lower limbs (all-ones under a smaller limb, zero under a larger one, or random): the inputs that separate a
+    correct limb-by-limb comparison with K from one that drops or mis-orders a limb (seeded change C01-2)"""
+    w = rng.choice((32, 64)); nl = 256 // w; j = rng.randrange(nl); full = (1 << w) - 1
+    kj = (K >> (w * j)) & full
+    d = rng.choice((-1, 1, -1, 1, -rng.randrange(1, 1 << (w - 1)), rng.randrange(1, 1 << (w - 1))))
+    vj = min(max(kj + d, 0), full)
+    top = (K >> (w * (j + 1))) << (w * (j + 1))
+    low_bits = w * j
+    if low_bits == 0: low = 0
+    else:
+        kind = rng.randrange(4); lowfull = (1 << low_bits) - 1
+        low = (lowfull if vj < kj else 0) if kind < 2 else (rng.getrandbits(low_bits) if kind == 2 else ((K & lowfull) + rng.choice((-1, 0, 1))) & lowfull)
+    return (top | (vj << low_bits) | low) & (2**256 - 1)
+
+CMP_SCALARS = [n, (n - 1) // 2, p - n, 2**256 - n]
 def scalar(rng, pool_p=0.34):
     if rng.random() < pool_p: return rng.choice(SCALARS)
-    if rng.random() < 0.2: return limbs(rng)
+    x = rng.random()
+    if x < 0.2: return limbs(rng)
+    if x < 0.32: return near_limbwise(rng, rng.choice(CMP_SCALARS))
     return rng.getrandbits(256)
 def valid_seckey(rng, pool_p=0.25):
     while True:
@@ -51,7 +70,9 @@ def valid_seckey(rng, pool_p=0.25):
         if 0 < k < n: return k
 def field(rng, pool_p=0.34):
     if rng.random() < pool_p: return rng.choice(FIELDS)
-    if rng.random() < 0.2: return limbs(rng)
+    x = rng.random()
+    if x < 0.2: return limbs(rng)
+    if x < 0.32: return near_limbwise(rng, rng.choice((p, p, (p - 1) // 2, n)))
     return rng.getrandbits(256)
 def u64(rng, pool_p=0.4):
     if rng.random() < pool_p: return rng.choice(U64)
